@@ -254,7 +254,11 @@ class Prop(PropBase):
             del args["signal_type"]
         if not skw:
             del args["signal_kwargs"]
-        return R.BasebandReader(info["paths"], **args, **kw)
+        rd = R.BasebandReader(info["paths"], **args, **kw)
+        if isinstance(lsb, self.np.ndarray):
+            # the caller's mask buffer is the caller's: reusing it afterwards (here: inverted in place) is no business of the reader
+            self.np.logical_not(lsb, out=lsb)
+        return rd
 
     def _twin(self, spec):
         """a second, different reader of the same class, sample shape and dtype (another file with other content, or the
